@@ -642,7 +642,13 @@ func (p *Program) classifyLoop(fn *ssa.Function, l *loopInfo, D map[*ssa.Functio
 				step = c
 			}
 			if inv && okStep && step != 0 {
-				return "counted", fmt.Sprintf("induction variable %s changes by %d per cycle towards the loop-invariant bound %s", ph.Comment, step, p.expr(bound))
+				init := "?"
+				for i, e := range ph.Edges {
+					if !h.Dominates(h.Preds[i]) {
+						init = p.expr(p.stripConv(e))
+					}
+				}
+				return "counted", fmt.Sprintf("induction variable %s changes by %d per cycle from %s towards the loop-invariant bound %s", ph.Comment, step, init, p.expr(bound))
 			}
 		}
 	}
@@ -1059,21 +1065,19 @@ func ruleC03R8(r *Run) {
 			r.Fail("(*ptrGen).value#nil", ret.Pos(), "nil is returned on a path that is not the false edge of the non-nil coin")
 			continue
 		}
-		prob := p.resolve(coin.Common().Args[1])
-		ok := false
-		detail := p.expr(prob)
-		if ph, isPhi := prob.(*ssa.Phi); isPhi {
-			ok = true
-			for i, e := range ph.Edges {
-				pred := ph.Block().Preds[i]
-				allow := holds(p.facts(pred.Instrs[len(pred.Instrs)-1]), "$g.allowNil", "==", "true")
-				c, isC := p.resolve(e).(*ssa.Const)
-				if !allow {
-					// must be exactly 1
-					if !isC || p.expr(c) != "1" {
-						ok = false
-						detail = "probability on the !allowNil path is " + p.expr(e)
-					}
+		// the values the non-nil probability can take (phi edges / returns of a helper), with their facts
+		alts := p.alternatives(coin.Common().Args[1], 0)
+		ok := len(alts) > 1
+		detail := p.expr(coin.Common().Args[1])
+		for _, a := range alts {
+			facts := append(append([]rel{}, a.Facts...), p.facts(coin)...)
+			allow := holds(facts, "$g.allowNil", "==", "true")
+			c, isC := p.resolve(a.Val).(*ssa.Const)
+			if !allow {
+				// must be exactly 1
+				if !isC || p.expr(c) != "1" {
+					ok = false
+					detail = "probability on the !allowNil path is " + p.expr(a.Val)
 				}
 			}
 		}
